@@ -153,3 +153,195 @@ pub proof fn lemma_ref_chunk_fold_prefix(k: Seq<u32>, c: Seq<u8>, d: Seq<u8>, nb
         assert((c + d).subrange(64 * (nb - 1), 64 * (nb as int)) =~= c.subrange(64 * (nb - 1), 64 * (nb as int)));
     }
 }
+
+// ---- 4. the eager chaining-value stack ---------------------------------------------------------
+// chaining value of the complete subtree over the u chunks [a, a + u) of m
+pub open spec fn sp_unit_cv(m: Seq<u8>, a: nat, u: nat, key: Seq<u32>, flags: u8) -> SpCv {
+    sp_subtree_cv(m.subrange(1024 * (a as int), 1024 * ((a + u) as int)), a as u64, key, flags)
+}
+
+// The stack after tu complete units of u chunks each (u a power of two; the hasher itself has u == 1):
+// one entry per set binary digit of tu, largest subtree first. An odd tu has the last unit on top,
+// everything below it is the stack of tu / 2 units of twice the size.
+pub open spec fn sp_estack(m: Seq<u8>, tu: nat, u: nat, key: Seq<u32>, flags: u8) -> Seq<SpCv>
+    decreases tu,
+{
+    if tu == 0 {
+        Seq::empty()
+    } else if tu % 2 == 0 {
+        sp_estack(m, tu / 2, 2 * u, key, flags)
+    } else {
+        sp_estack(m, tu / 2, 2 * u, key, flags).push(sp_unit_cv(m, (u * (tu - 1)) as nat, u, key, flags))
+    }
+}
+
+// folding parent nodes from the top of the stack down, starting from the node `out` on the right edge
+pub open spec fn sp_efold(stack: Seq<SpCv>, out: SpOut, key: Seq<u32>, flags: u8) -> SpOut
+    decreases stack.len(),
+{
+    if stack.len() == 0 {
+        out
+    } else {
+        sp_efold(stack.drop_last(), sp_parent_out(stack.last(), sp_out_cv(out), key, flags), key, flags)
+    }
+}
+
+pub proof fn lemma_popcount_step(x: u64)
+    ensures
+        x % 2 == 0 ==> sp_popcount64(x) == sp_popcount64(x / 2),
+        x % 2 == 1 ==> sp_popcount64(x) == 1 + sp_popcount64(x / 2),
+        (x & 1 == 0) <==> x % 2 == 0,
+        x >> 1 == x / 2,
+{
+    assert(x & 1 == x % 2) by (bit_vector);
+    assert(x >> 1 == x / 2) by (bit_vector);
+}
+
+pub open spec fn sp_pow2n(k: nat) -> nat
+    decreases k,
+{
+    if k == 0 { 1 } else { 2 * sp_pow2n((k - 1) as nat) }
+}
+
+pub proof fn lemma_popcount_bound(x: u64, k: nat)
+    requires
+        x < sp_pow2n(k),
+    ensures
+        sp_popcount64(x) <= k,
+    decreases k,
+{
+    lemma_popcount_step(x);
+    if k == 0 {
+    } else if x != 0 {
+        lemma_popcount_bound(x / 2, (k - 1) as nat);
+    }
+}
+
+pub proof fn lemma_popcount_54(x: u64)
+    requires
+        x < 0x40_0000_0000_0000,
+    ensures
+        sp_popcount64(x) <= 54,
+{
+    assert(sp_pow2n(54) == 0x40_0000_0000_0000) by (compute);
+    lemma_popcount_bound(x, 54);
+}
+
+pub proof fn lemma_estack_len(m: Seq<u8>, tu: nat, u: nat, key: Seq<u32>, flags: u8)
+    requires
+        tu <= u64::MAX,
+    ensures
+        sp_estack(m, tu, u, key, flags).len() == sp_popcount64(tu as u64),
+    decreases tu,
+{
+    lemma_popcount_step(tu as u64);
+    if tu != 0 {
+        lemma_estack_len(m, tu / 2, 2 * u, key, flags);
+    }
+}
+
+// the stack only looks at the first 1024 * u * tu bytes
+pub proof fn lemma_estack_frame(m: Seq<u8>, x: Seq<u8>, tu: nat, u: nat, key: Seq<u32>, flags: u8)
+    requires
+        1024 * (u * tu) <= m.len(),
+    ensures
+        sp_estack(m + x, tu, u, key, flags) == sp_estack(m, tu, u, key, flags),
+    decreases tu,
+{
+    if tu != 0 {
+        assert((2 * u) * (tu / 2) <= u * tu) by (nonlinear_arith)
+            requires tu >= 0, u >= 0;
+        lemma_estack_frame(m, x, tu / 2, 2 * u, key, flags);
+        if tu % 2 == 1 {
+            let a = u * (tu - 1);
+            assert(a + u == u * tu && a >= 0) by (nonlinear_arith)
+                requires a == u * (tu - 1), tu >= 1, u >= 0;
+            assert((m + x).subrange(1024 * a, 1024 * (a + u)) =~= m.subrange(1024 * a, 1024 * (a + u)));
+        }
+    }
+}
+
+// two adjacent complete subtrees of u chunks (u a power of two) merge into the subtree of 2u chunks
+pub proof fn lemma_unit_merge(m: Seq<u8>, a: nat, u: nat, key: Seq<u32>, flags: u8)
+    requires
+        sp_is_pow2(u as int),
+        1024 * (a + 2 * u) <= m.len(),
+        a + 2 * u <= 0x1_0000_0000_0000_0000,
+    ensures
+        sp_unit_cv(m, a, 2 * u, key, flags)
+            == sp_parent_cv(sp_unit_cv(m, a, u, key, flags), sp_unit_cv(m, a + u, u, key, flags), key, flags),
+{
+    let x = m.subrange(1024 * (a as int), 1024 * ((a + 2 * u) as int));
+    assert(x.len() == 2048 * u);
+    assert(sp_num_chunks(x.len()) == 2 * u);
+    lemma_pow2_double(u as int);
+    lemma_lp2_of_pow2(2 * u);
+    assert(sp_left_len(x.len()) == 1024 * u);
+    lemma_subtree_split(x, a as u64, key, flags);
+    let l = 1024 * u as int;
+    assert(x.subrange(0, l) =~= m.subrange(1024 * (a as int), 1024 * ((a + u) as int)));
+    assert(x.subrange(l, x.len() as int) =~= m.subrange(1024 * ((a + u) as int), 1024 * ((a + u + u) as int)));
+    assert((a + l / 1024) as u64 == (a + u) as u64);
+}
+
+// Folding the stack of tu units onto the top node of the remaining bytes gives the root node of m,
+// provided the remaining bytes are a non-empty right part of at most u chunks (for the hasher: the
+// last chunk stays in the chunk state until more input arrives).
+pub proof fn lemma_efold_estack(m: Seq<u8>, tu: nat, u: nat, key: Seq<u32>, flags: u8)
+    requires
+        sp_is_pow2(u as int),
+        m.len() <= u64::MAX,
+        1024 * (u * tu) <= m.len(),
+        tu > 0 ==> 1024 * (u * tu) < m.len() <= 1024 * (u * tu) + 1024 * u,
+    ensures
+        sp_efold(sp_estack(m, tu, u, key, flags),
+                 sp_subtree_out(m.subrange(1024 * ((u * tu) as int), m.len() as int), (u * tu) as u64, key, flags), key, flags)
+            == sp_subtree_out(m, 0, key, flags),
+    decreases tu,
+{
+    let n = (u * tu) as int;
+    let st = sp_estack(m, tu, u, key, flags);
+    let out = sp_subtree_out(m.subrange(1024 * n, m.len() as int), n as u64, key, flags);
+    if tu == 0 {
+        assert(n == 0) by (nonlinear_arith) requires n == u * tu, tu == 0;
+        assert(m.subrange(0, m.len() as int) =~= m);
+    } else if tu % 2 == 0 {
+        assert((2 * u) * (tu / 2) == n) by (nonlinear_arith)
+            requires n == u * tu, tu % 2 == 0, tu >= 0;
+        lemma_pow2_double(u as int);
+        lemma_efold_estack(m, tu / 2, 2 * u, key, flags);
+    } else {
+        let a = u * (tu - 1);
+        assert(a + u == n && a >= 0 && (2 * u) * (tu / 2) == a) by (nonlinear_arith)
+            requires a == u * (tu - 1), n == u * tu, tu >= 1, u >= 0, tu % 2 == 1;
+        let rest = m.len() - 1024 * n;
+        let xr = m.subrange(1024 * n, m.len() as int);
+        let x = m.subrange(1024 * a, m.len() as int);
+        let e = sp_unit_cv(m, a as nat, u, key, flags);
+        assert(u >= 1);
+        // the node out is not a root: its chaining value is the subtree chaining value of xr
+        if xr.len() <= 1024 {
+            lemma_subtree_one_chunk(xr, n as u64, key, flags);
+        } else {
+            lemma_subtree_split(xr, n as u64, key, flags);
+        }
+        assert(sp_out_cv(out) == sp_subtree_cv(xr, n as u64, key, flags));
+        // x = unit a (u chunks) followed by xr (between 1 and u chunks): its left subtree is the unit
+        let q = sp_num_chunks(rest as nat);
+        assert(1 <= q <= u);
+        assert(sp_num_chunks(x.len()) == u + q);
+        lemma_lp2_concat(u, q);
+        assert(sp_left_len(x.len()) == 1024 * u);
+        let l = 1024 * u as int;
+        assert(x.subrange(0, l) =~= m.subrange(1024 * a, 1024 * (a + u)));
+        assert(x.subrange(l, x.len() as int) =~= xr);
+        assert((a + l / 1024) as u64 == n as u64);
+        assert(sp_subtree_out(x, a as u64, key, flags) == sp_parent_out(e, sp_out_cv(out), key, flags));
+        lemma_pow2_double(u as int);
+        lemma_efold_estack(m, tu / 2, 2 * u, key, flags);
+        let below = sp_estack(m, tu / 2, 2 * u, key, flags);
+        assert(st == below.push(e));
+        assert(st.drop_last() =~= below);
+        assert(st.last() == e);
+    }
+}
